@@ -87,6 +87,14 @@ Definition InvN (s : state) : Prop := kind s <> CVC -> incl (names s) (index s).
 
 Definition Inv (s : state) : Prop := InvV s /\ InvN s.
 
+Lemma inv_unfolded s :
+  Inv s <->
+  ((NoDup (index s) /\
+    (forall x, In x (index s) -> assoc x (vars s) <> None) /\
+    (forall x v, assoc x (vars s) = Some v -> vshape v = [length (span s)])) /\
+   (kind s <> CVC -> incl (names s) (index s))).
+Proof. split; intros H; exact H. Qed.
+
 Definition dtype_of (s : state) (x : string) : option dtype :=
   match assoc x (vars s) with Some v => Some (vdtype v) | None => None end.
 
@@ -856,6 +864,25 @@ Section Facts.
       (rewrite B; destruct (base_add_variable name value (match dt with None => dflt s | Some _ => dt end) s) as [s1 [u|e]]; reflexivity).
   Qed.
 
+  (* the values setter is reached (same outcome, same series) whenever the new-attribute guard does not fire, i.e. when
+     strict is off or 'values' has been registered by an earlier assignment; under strict=True with 'values' not yet
+     registered it is refused: strict_values_setter_blocked_refuted (ContainerExamples.v), a kept finding *)
+  Theorem values_setter_reached value hint s :
+    mem "values" (index s) = false ->
+    strict s = false \/ reg_mem "values" (registry s) = true ->
+    snd (setattr "values" value hint s) = snd (values_setter value s) /\
+    vars (fst (setattr "values" value hint s)) = vars (fst (values_setter value s)) /\
+    index (fst (setattr "values" value hint s)) = index (fst (values_setter value s)).
+  Proof.
+    intros M H. unfold Container.setattr. rewrite M.
+    destruct (reg_mem "values" (registry s)) eqn:R.
+    - rewrite !andb_false_r. cbn [negb]. unfold Container.obj_setattr. cbn [String.eqb Ascii.eqb Bool.eqb]. auto.
+    - destruct H as [H|H]; [|discriminate]. rewrite H. rewrite andb_false_r. cbn [negb andb].
+      unfold Container.add_attribute. rewrite M, R.
+      unfold Container.obj_setattr. cbn [String.eqb Ascii.eqb Bool.eqb].
+      destruct (values_setter value s) as [s' [u|e]]; simpl; auto. destruct u. auto.
+  Qed.
+
   (* ================================================================ constructors *)
   Theorem inv_init_vc sp st : Inv (init_vc sp st).
   Proof.
@@ -937,5 +964,13 @@ Section Facts.
     apply incl_app; [|exact L].
     eapply incl_tran; [eapply init_vars_ret; exact H5|].
     apply (proj1 (good_mono _ _ (gs_trans _ _ _ G59 Gfin))).
+  Qed.
+  (* the same, stated on the constructor's result (convenient for closed instances) *)
+  Theorem inv_init_model_fst k sp st d default NAMES ivs :
+    k <> CVC ->
+    snd (init_model k sp st d default NAMES ivs) = Ret tt -> Inv (fst (init_model k sp st d default NAMES ivs)).
+  Proof.
+    intros KN H. destruct (init_model k sp st d default NAMES ivs) as [s o] eqn:E. simpl in H. subst o.
+    simpl. eapply inv_init_model; [exact KN | exact E].
   Qed.
 End Facts.
